@@ -9,37 +9,82 @@ import AsyncsshModel.Gen.C05
 namespace AsyncsshModel.C05
 open AsyncsshModel.Auth
 
+theorem createAuthQ_none (app : App) (s : St) (r : Req) : createAuthQ {} app s r = createAuth app s r := by
+  unfold createAuthQ createAuth
+  cases hm : r.method <;> simp [keyTrustedQ]
+
+theorem afterBeginQ_none (app : App) (s : St) (cu : Nat) (r : Req) :
+    afterBeginQ {} app s cu r = afterBegin app s cu r := by
+  unfold afterBeginQ afterBegin
+  simp [createAuthQ_none]
+
+theorem onValDoneQ_none (app : App) (s : St) (k : Nat) : onValDoneQ {} app s k = onValDone app s k := by
+  unfold onValDoneQ
+  split
+  · rename_i a ha
+    split
+    · rename_i sg key hm
+      unfold onValDone
+      simp [ha, hm, keyTrustedQ]
+    · rfl
+  · rfl
+
+/-- with no quirk switched on, the parametrised pre-repair transition function IS the current one -/
+theorem stepQ_none (app : App) : stepQ {} app = step app := by
+  funext s ev
+  cases ev with
+  | req r => simp [stepQ, step, onReqQ, onReq, afterBeginQ_none, createAuthQ_none]
+  | beginDone k => simp [stepQ, step, onBeginDoneQ, onBeginDone, afterBeginQ_none]
+  | valDone k => simp [stepQ, step, onValDoneQ_none]
+  | other => rfl
+  | info c => simp [stepQ, step]
+  | authMsg => rfl
+
+/-- the pre-repair behaviours the source still shows (none, when all four repairs are present): read from the AST
+    of `_match_known_hosts`, `validate_host_based_auth`, `_ServerKbdIntAuth` and `_process_userauth_request` -/
+def codeQuirks : Quirks :=
+  { trustedKeysAccumulate := !Gen.C05.trustedKeysPerRequest,
+    claimedHostToApp := !Gen.C05.hostUserAskedValidatedHost,
+    earlyInfoResponse := !Gen.C05.infoResponseNeedsRequest,
+    staleKeyOptions := !Gen.C05.keyOptionsResetPerRequest }
+
 /-- which transition function is the faithful model of the source as it is now (flags regenerated from the AST
-    of `_process_userauth_request` / `_finish_userauth` on every run) -/
+    on every run) -/
 def codeStep (app : App) : St → Ev → St :=
   if Gen.C05.abortsPrevious && Gen.C05.beginTestIsBegun && decide (2 ≤ Gen.C05.staleChecks) &&
-      Gen.C05.cancelsSuperseded && Gen.C05.resetsBegunOnReload then step app
+      Gen.C05.cancelsSuperseded && Gen.C05.resetsBegunOnReload then stepQ codeQuirks app
   else if Gen.C05.abortsPrevious then stepMid app
   else stepOld app
 
 /-- **The source implements the repaired discipline**: a new request aborts the one in progress and cancels the
     task of the superseded request (so an application `begin_auth` still running for it cannot install that user's
     keys later), superseded `_finish_userauth` tasks stop at both suspension points, `begin_auth` is skipped only for
-    the user it completed for, and that user is forgotten once the configuration is reloaded for another request — so the theorems below, stated about `step`/`run`, are about the current code. -/
+    the user it completed for, and that user is forgotten once the configuration is reloaded for another request;
+    the host keys trusted for a hostbased request are those of the host it names, the application is asked about
+    the host the key was validated for, a keyboard-interactive response is only accepted as the answer to an
+    INFO_REQUEST, and key options are forgotten at each new request — so the theorems below, stated about
+    `step`/`run`, are about the current code. -/
 theorem code_is_repaired (app : App) : codeStep app = step app := by
-  unfold codeStep
+  unfold codeStep codeQuirks
   simp [Gen.C05.abortsPrevious, Gen.C05.beginTestIsBegun, Gen.C05.staleChecks, Gen.C05.cancelsSuperseded,
-    Gen.C05.resetsBegunOnReload]
+    Gen.C05.resetsBegunOnReload, Gen.C05.trustedKeysPerRequest, Gen.C05.hostUserAskedValidatedHost,
+    Gen.C05.infoResponseNeedsRequest, Gen.C05.keyOptionsResetPerRequest]
+  exact stepQ_none app
 
 /-- a credential check for `u` succeeded on this connection, or the application declared that `u` needs none -/
 def Granted (app : App) (log : List Call) (u : Nat) : Prop :=
   app.needsAuth u = false ∨ (∃ c, Call.checkPw u c true ∈ log) ∨ (∃ k, Call.checkKey u u k true (some true) ∈ log) ∨
-  (∃ c, Call.checkChPw u c true ∈ log) ∨ (∃ c, Call.checkHost u c true true (some true) ∈ log) ∨
+  (∃ c, Call.checkChPw u c true ∈ log) ∨ (∃ h k, Call.checkHost u h h k true true (some true) ∈ log) ∨
   (∃ r, Call.kbd u r .accept ∈ log)
 
 theorem granted_mono (app : App) (log extra : List Call) (u : Nat) (h : Granted app log u) :
     Granted app (log ++ extra) u := by
-  rcases h with h | ⟨c, h⟩ | ⟨k, h⟩ | ⟨c, h⟩ | ⟨c, h⟩ | ⟨r, h⟩
+  rcases h with h | ⟨c, h⟩ | ⟨k, h⟩ | ⟨c, h⟩ | ⟨c, k, h⟩ | ⟨r, h⟩
   · exact Or.inl h
   · exact Or.inr (Or.inl ⟨c, List.mem_append_left _ h⟩)
   · exact Or.inr (Or.inr (Or.inl ⟨k, List.mem_append_left _ h⟩))
   · exact Or.inr (Or.inr (Or.inr (Or.inl ⟨c, List.mem_append_left _ h⟩)))
-  · exact Or.inr (Or.inr (Or.inr (Or.inr (Or.inl ⟨c, List.mem_append_left _ h⟩))))
+  · exact Or.inr (Or.inr (Or.inr (Or.inr (Or.inl ⟨c, k, List.mem_append_left _ h⟩))))
   · exact Or.inr (Or.inr (Or.inr (Or.inr (Or.inr ⟨r, List.mem_append_left _ h⟩))))
 
 structure Inv (app : App) (s : St) : Prop where
@@ -149,7 +194,7 @@ theorem onReq_inv (app : App) (s : St) (r : Req) (h : Inv app s) : Inv app (onRe
         intro t ht; have := h.seqs t ht; omega
       -- the state after switching the user name and aborting what was in progress
       have h1 : ∀ log nb bg, Inv app { s with username := some r.user, seq := s.seq + 1, auth := none,
-                                               log := log, nBegin := nb, begun := bg } := by
+                                               keyOpts := none, log := log, nBegin := nb, begun := bg } := by
         intro log nb bg
         refine ⟨?_, ?_, ?_, ?_, ?_, h.uniq, ?_⟩
         · intro a ha; cases ha
@@ -233,14 +278,15 @@ theorem onValDone_inv (app : App) (s : St) (k : Nat) (h : Inv app s) : Inv app (
     split
     · exact h
     · -- the live auth object's validator answered; its user is the connection's user
-      have hlog : ∀ extra, Inv app { s with log := s.log ++ extra } := fun extra =>
+      have hlog : ∀ extra ko, Inv app { s with log := s.log ++ extra, keyOpts := ko } := fun extra _ =>
         ⟨h.authUser, h.taskUser, h.seqs, h.authBegun, h.parkedNoAuth, h.uniq,
           fun u hc => granted_mono app _ _ u (h.done u hc)⟩
       -- the object stays installed, no longer awaiting (PK_OK, PASSWD_CHANGEREQ, INFO_REQUEST sent)
-      have hstay : ∀ (extra : List Call) (out : List Reply),
-          Inv app { s with log := s.log ++ extra, out := out, auth := some { a with awaiting := false } } := by
-        intro extra out
-        have hb := hlog extra
+      have hstay : ∀ (extra : List Call) (out : List Reply) ko,
+          Inv app { s with log := s.log ++ extra, out := out, auth := some { a with awaiting := false },
+                           keyOpts := ko } := by
+        intro extra out ko
+        have hb := hlog extra ko
         refine ⟨?_, hb.taskUser, hb.seqs, ?_, ?_, hb.uniq, hb.done⟩
         · intro a' ha'
           simp only [Option.some.injEq] at ha'
@@ -254,10 +300,10 @@ theorem onValDone_inv (app : App) (s : St) (k : Nat) (h : Inv app s) : Inv app (
           have := h.parkedNoAuth t ht hs
           rw [ha] at this; cases this
       -- success is justified by a record for the connection's user
-      have hsucc : ∀ (extra : List Call), Granted app (s.log ++ extra) a.user →
-          Inv app (sendSuccess { s with log := s.log ++ extra }) := by
-        intro extra hg
-        apply sendSuccess_inv app _ (hlog _)
+      have hsucc : ∀ (extra : List Call) ko, Granted app (s.log ++ extra) a.user →
+          Inv app (sendSuccess { s with log := s.log ++ extra, keyOpts := ko }) := by
+        intro extra ko hg
+        apply sendSuccess_inv app _ (hlog _ _)
         intro u huu
         simp only at huu
         rw [hu] at huu
@@ -267,7 +313,7 @@ theorem onValDone_inv (app : App) (s : St) (k : Nat) (h : Inv app s) : Inv app (
       split
       · -- password
         split
-        · have := hstay [] (s.out ++ [.changeReq])
+        · have := hstay [] (s.out ++ [.changeReq]) s.keyOpts
           simpa using this
         · dsimp only
           split
@@ -275,10 +321,10 @@ theorem onValDone_inv (app : App) (s : St) (k : Nat) (h : Inv app s) : Inv app (
             apply hsucc
             right; left
             exact ⟨a.req.cred, by simp [hok]⟩
-          · exact sendFailure_inv app _ (hlog _)
+          · exact sendFailure_inv app _ (hlog _ _)
       · -- password change
         split
-        · have := hstay [] (s.out ++ [.changeReq])
+        · have := hstay [] (s.out ++ [.changeReq]) s.keyOpts
           simpa using this
         · dsimp only
           split
@@ -286,19 +332,20 @@ theorem onValDone_inv (app : App) (s : St) (k : Nat) (h : Inv app s) : Inv app (
             apply hsucc
             right; right; right; left
             exact ⟨a.req.cred, by simp [hok]⟩
-          · exact sendFailure_inv app _ (hlog _)
+          · exact sendFailure_inv app _ (hlog _ _)
       · -- hostbased
-        rename_i sigOK _
+        rename_i sigOK key _
         dsimp only
         split
         · rename_i hok
-          have hok' : (app.hostKeyOK a.req.cred = true ∧ sigOK = true) ∧ app.hostUserOK a.user a.req.cred = true := by
+          have hok' : (app.hostKeyOK (effHost app a.req) key = true ∧ sigOK = true) ∧
+              app.hostUserOK a.user (effHost app a.req) = true := by
             simpa using hok
           apply hsucc
           right; right; right; right; left
-          refine ⟨a.req.cred, ?_⟩
+          refine ⟨effHost app a.req, key, ?_⟩
           simp [hok'.1.1, hok'.1.2, hok'.2]
-        · exact sendFailure_inv app _ (hlog _)
+        · exact sendFailure_inv app _ (hlog _ _)
       · -- keyboard-interactive
         dsimp only
         split
@@ -306,13 +353,13 @@ theorem onValDone_inv (app : App) (s : St) (k : Nat) (h : Inv app s) : Inv app (
           apply hsucc
           right; right; right; right; right
           exact ⟨a.resp, by simp [hans]⟩
-        · exact sendFailure_inv app _ (hlog _)
-        · exact hstay _ _
+        · exact sendFailure_inv app _ (hlog _ _)
+        · exact hstay _ _ _
       · -- publickey probe
         dsimp only
         split
-        · exact hstay _ _
-        · exact sendFailure_inv app _ (hlog _)
+        · exact hstay _ _ _
+        · exact sendFailure_inv app _ (hlog _ _)
       · -- publickey with signature
         rename_i sigOK _
         dsimp only
@@ -324,7 +371,7 @@ theorem onValDone_inv (app : App) (s : St) (k : Nat) (h : Inv app s) : Inv app (
           refine ⟨a.req.cred, ?_⟩
           rw [hctx] at hok' ⊢
           simp [hok'.1, hok'.2]
-        · exact sendFailure_inv app _ (hlog _)
+        · exact sendFailure_inv app _ (hlog _ _)
       · exact h
 
 theorem onInfo_inv (app : App) (s : St) (c : Nat) (h : Inv app s) : Inv app (onInfo s c) := by
@@ -335,18 +382,21 @@ theorem onInfo_inv (app : App) (s : St) (c : Nat) (h : Inv app s) : Inv app (onI
     · exact ⟨h.authUser, h.taskUser, h.seqs, h.authBegun, h.parkedNoAuth, h.uniq, h.done⟩
     · rename_i a ha
       split
-      · refine ⟨?_, h.taskUser, h.seqs, ?_, ?_, h.uniq, h.done⟩
-        · intro a' ha'
-          simp only [Option.some.injEq] at ha'
-          subst ha'
-          exact h.authUser a ha
-        · intro a' ha'
-          simp only [Option.some.injEq] at ha'
-          subst ha'
-          exact h.authBegun a ha
-        · intro t ht hs
-          have := h.parkedNoAuth t ht hs
-          rw [ha] at this; cases this
+      · split
+        · -- a response nobody asked for: the connection ends
+          exact ⟨h.authUser, h.taskUser, h.seqs, h.authBegun, h.parkedNoAuth, h.uniq, h.done⟩
+        · refine ⟨?_, h.taskUser, h.seqs, ?_, ?_, h.uniq, h.done⟩
+          · intro a' ha'
+            simp only [Option.some.injEq] at ha'
+            subst ha'
+            exact h.authUser a ha
+          · intro a' ha'
+            simp only [Option.some.injEq] at ha'
+            subst ha'
+            exact h.authBegun a ha
+          · intro t ht hs
+            have := h.parkedNoAuth t ht hs
+            rw [ha] at this; cases this
       · exact ⟨h.authUser, h.taskUser, h.seqs, h.authBegun, h.parkedNoAuth, h.uniq, h.done⟩
 
 theorem onAuthMsg_inv (app : App) (s : St) (h : Inv app s) : Inv app (onAuthMsg s) := by
@@ -384,14 +434,19 @@ theorem auth_sound (app : App) (evs : List Ev) (u : Nat) (h : (run app evs).comp
     Granted app (run app evs).log u :=
   (run_inv app evs {} (inv_init app)).done u h
 
-/-- a logged check records the application's own verdict for that user and credential -/
+/-- a logged check records the application's own verdict for that user and credential; a hostbased check looks the
+    key up for, and asks the application about, one and the same host — the reverse lookup of the peer address
+    unless `trust_client_host` is set -/
 def callHonest (app : App) (c : Call) : Prop :=
   (∀ u cr, c = Call.checkPw u cr true → app.pwOK u cr = true) ∧
   (∀ ctx u k sg, c = Call.checkKey ctx u k true sg → app.keyOK ctx k = true) ∧
   (∀ u cr, c = Call.checkChPw u cr true → app.chpwOK u cr = true) ∧
-  (∀ u cr, c = Call.checkHost u cr true true (some true) → app.hostKeyOK cr = true ∧ app.hostUserOK u cr = true) ∧
+  (∀ u h h' k, c = Call.checkHost u h h' k true true (some true) →
+    app.hostKeyOK h k = true ∧ app.hostUserOK u h' = true) ∧
   (∀ u, c = Call.kbd u none .accept → app.kbdStart u = .accept) ∧
-  (∀ u r, c = Call.kbd u (some r) .accept → app.kbdNext u r = .accept)
+  (∀ u r, c = Call.kbd u (some r) .accept → app.kbdNext u r = .accept) ∧
+  (∀ u h h' k ko sg uo, c = Call.checkHost u h h' k ko sg uo →
+    h = h' ∧ (app.trustClientHost = false → h = app.resolvedHost))
 
 def LogHonest (app : App) (log : List Call) : Prop := ∀ c ∈ log, callHonest app c
 
@@ -404,10 +459,10 @@ theorem lh_append (app : App) (log : List Call) (c : Call) (h : LogHonest app lo
   · exact hc
 
 theorem honest_begin (app : App) (u : Nat) : callHonest app (.begin u) := by
-  refine ⟨?_, ?_, ?_, ?_, ?_, ?_⟩ <;> intros <;> rename_i h <;> cases h
+  refine ⟨?_, ?_, ?_, ?_, ?_, ?_, ?_⟩ <;> intros <;> rename_i h <;> cases h
 
 theorem honest_checkPw (app : App) (u c : Nat) : callHonest app (.checkPw u c (app.pwOK u c)) := by
-  refine ⟨?_, ?_, ?_, ?_, ?_, ?_⟩
+  refine ⟨?_, ?_, ?_, ?_, ?_, ?_, ?_⟩
   · intro u' c' h
     simp only [Call.checkPw.injEq] at h
     obtain ⟨rfl, rfl, h3⟩ := h
@@ -416,7 +471,7 @@ theorem honest_checkPw (app : App) (u c : Nat) : callHonest app (.checkPw u c (a
 
 theorem honest_checkKey (app : App) (ctx u k : Nat) (sg : Option Bool) :
     callHonest app (.checkKey ctx u k (app.keyOK ctx k) sg) := by
-  refine ⟨?_, ?_, ?_, ?_, ?_, ?_⟩
+  refine ⟨?_, ?_, ?_, ?_, ?_, ?_, ?_⟩
   · intros; rename_i h; cases h
   · intro ctx' u' k' sg' h
     simp only [Call.checkKey.injEq] at h
@@ -425,7 +480,7 @@ theorem honest_checkKey (app : App) (ctx u k : Nat) (sg : Option Bool) :
   all_goals intros; rename_i h; cases h
 
 theorem honest_checkChPw (app : App) (u c : Nat) : callHonest app (.checkChPw u c (app.chpwOK u c)) := by
-  refine ⟨?_, ?_, ?_, ?_, ?_, ?_⟩
+  refine ⟨?_, ?_, ?_, ?_, ?_, ?_, ?_⟩
   · intros; rename_i h; cases h
   · intros; rename_i h; cases h
   · intro u' c' h
@@ -434,26 +489,33 @@ theorem honest_checkChPw (app : App) (u c : Nat) : callHonest app (.checkChPw u 
     exact h3
   all_goals intros; rename_i h; cases h
 
-theorem honest_checkHost (app : App) (u c : Nat) (sg : Bool) (uo : Option Bool)
-    (huo : uo = none ∨ uo = some (app.hostUserOK u c)) :
-    callHonest app (.checkHost u c (app.hostKeyOK c) sg uo) := by
-  refine ⟨?_, ?_, ?_, ?_, ?_, ?_⟩
+theorem honest_checkHost (app : App) (u : Nat) (r : Req) (key : Nat) (sg : Bool) (uo : Option Bool)
+    (huo : uo = none ∨ uo = some (app.hostUserOK u (effHost app r))) :
+    callHonest app (.checkHost u (effHost app r) (effHost app r) key (app.hostKeyOK (effHost app r) key) sg uo) := by
+  refine ⟨?_, ?_, ?_, ?_, ?_, ?_, ?_⟩
   · intros; rename_i h; cases h
   · intros; rename_i h; cases h
   · intros; rename_i h; cases h
-  · intro u' c' h
+  · intro u' h1 h2 k' h
     simp only [Call.checkHost.injEq] at h
-    obtain ⟨rfl, rfl, h3, _, h5⟩ := h
+    obtain ⟨rfl, rfl, rfl, rfl, h3, _, h5⟩ := h
     rcases huo with h0 | h0
     · rw [h0] at h5; cases h5
     · rw [h0] at h5
       simp only [Option.some.injEq] at h5
       exact ⟨h3, h5⟩
-  all_goals intros; rename_i h; cases h
+  · intros; rename_i h; cases h
+  · intros; rename_i h; cases h
+  · intro u' h1 h2 k' ko sg' uo' h
+    simp only [Call.checkHost.injEq] at h
+    obtain ⟨_, rfl, rfl, _⟩ := h
+    refine ⟨rfl, ?_⟩
+    intro ht
+    simp [effHost, ht]
 
 theorem honest_kbd (app : App) (u : Nat) (r : Option Nat) :
     callHonest app (.kbd u r (match r with | none => app.kbdStart u | some c => app.kbdNext u c)) := by
-  refine ⟨?_, ?_, ?_, ?_, ?_, ?_⟩
+  refine ⟨?_, ?_, ?_, ?_, ?_, ?_, ?_⟩
   · intros; rename_i h; cases h
   · intros; rename_i h; cases h
   · intros; rename_i h; cases h
@@ -468,6 +530,7 @@ theorem honest_kbd (app : App) (u : Nat) (r : Option Nat) :
     obtain ⟨rfl, h2, h3⟩ := h
     subst h2
     exact h3
+  · intros; rename_i h; cases h
 
 theorem sendSuccess_log (s : St) : (sendSuccess s).log = s.log := by
   unfold sendSuccess; split <;> rfl
@@ -484,7 +547,7 @@ theorem createAuth_honest (app : App) (s : St) (r : Req) (h : LogHonest app s.lo
       · exact h
       · split
         · exact h
-        · exact lh_append app _ _ h (honest_checkHost app _ _ _ none (Or.inl rfl))
+        · exact lh_append app _ _ h (honest_checkHost app _ r _ _ none (Or.inl rfl))
       · exact h
 
 theorem afterBegin_honest (app : App) (s : St) (cu : Nat) (r : Req) (h : LogHonest app s.log) :
@@ -546,9 +609,9 @@ theorem step_logHonest (app : App) (s : St) (ev : Ev) (h : LogHonest app s.log) 
             · rw [sendSuccess_log]; exact hl
             · exact hl
         · -- hostbased
-          rename_i sigOK _
+          rename_i sigOK key _
           try dsimp only
-          have hl := lh_append app _ _ h (honest_checkHost app a.user a.req.cred sigOK _ (Or.inr rfl))
+          have hl := lh_append app _ _ h (honest_checkHost app a.user a.req key sigOK _ (Or.inr rfl))
           split
           · rw [sendSuccess_log]; exact hl
           · exact hl
@@ -582,7 +645,9 @@ theorem step_logHonest (app : App) (s : St) (ev : Ev) (h : LogHonest app s.log) 
     · exact h
     · split
       · exact h
-      · split <;> exact h
+      · split
+        · split <;> exact h
+        · exact h
   | authMsg =>
     simp only [step, onAuthMsg]
     split
@@ -597,24 +662,28 @@ theorem run_logHonest (app : App) (evs : List Ev) : LogHonest app (run app evs).
   exact this {} (by intro c hc; cases hc)
 
 /-- **No repetition, interleaving, pipelining, or switch of method or user name grants access otherwise**: if
-    the application needs authentication for `u` and accepts no password and no key for `u`, then NO sequence
-    of events whatsoever leaves the connection authenticated as `u`. -/
+    the application needs authentication for `u` and accepts no password and no key for `u`, and accepts `u` from
+    no client host that has a trusted host key (`hhost`: whatever other hosts `u` is accepted from, and whatever
+    keys are trusted for other hosts), then NO sequence of events whatsoever leaves the connection authenticated as
+    `u`. -/
 theorem no_grant_by_sequencing (app : App) (evs : List Ev) (u : Nat) (hn : app.needsAuth u = true)
     (hpw : ∀ c, app.pwOK u c = false) (hkey : ∀ k, app.keyOK u k = false)
-    (hch : ∀ c, app.chpwOK u c = false) (hhost : ∀ c, app.hostUserOK u c = false)
+    (hch : ∀ c, app.chpwOK u c = false) (hhost : ∀ h k, (app.hostKeyOK h k && app.hostUserOK u h) = false)
     (hk0 : app.kbdStart u ≠ .accept) (hk1 : ∀ r, app.kbdNext u r ≠ .accept) :
     (run app evs).complete ≠ some u := by
   intro h
   have hl := run_logHonest app evs
-  rcases auth_sound app evs u h with hg | ⟨c, hg⟩ | ⟨k, hg⟩ | ⟨c, hg⟩ | ⟨c, hg⟩ | ⟨r, hg⟩
+  rcases auth_sound app evs u h with hg | ⟨c, hg⟩ | ⟨k, hg⟩ | ⟨c, hg⟩ | ⟨c, k, hg⟩ | ⟨r, hg⟩
   · rw [hn] at hg; cases hg
   · have := (hl _ hg).1 u c rfl; rw [hpw c] at this; cases this
   · have := (hl _ hg).2.1 u u k _ rfl; rw [hkey k] at this; cases this
   · have := (hl _ hg).2.2.1 u c rfl; rw [hch c] at this; cases this
-  · have := ((hl _ hg).2.2.2.1 u c rfl).2; rw [hhost c] at this; cases this
+  · have := (hl _ hg).2.2.2.1 u c c k rfl
+    have hh := hhost c k
+    rw [this.1, this.2] at hh; cases hh
   · cases r with
     | none => exact hk0 ((hl _ hg).2.2.2.2.1 u rfl)
-    | some r => exact hk1 r ((hl _ hg).2.2.2.2.2 u r rfl)
+    | some r => exact hk1 r ((hl _ hg).2.2.2.2.2.1 u r rfl)
 
 /-- a signature that does not verify over this session's identifier and this exact request (wrong session id,
     wrong user, wrong service, wrong key) never grants access, even for an authorised key -/
@@ -644,8 +713,9 @@ theorem client_admitted (app : App) (u c : Nat) (hn : app.needsAuth u = true) :
       (run app [.req ⟨u, .pkProbe, c⟩, .beginDone 0, .valDone 0, .req ⟨u, .pkSig true, c⟩, .valDone 1]).complete = some u) ∧
     (app.chpwOK u c = true → app.chpwExpired u c = false →
       (run app [.req ⟨u, .pwChange, c⟩, .beginDone 0, .valDone 0]).complete = some u) ∧
-    (app.hostKeyOK c = true → app.hostUserOK u c = true →
-      (run app [.req ⟨u, .hostSig true, c⟩, .beginDone 0, .valDone 0]).complete = some u) ∧
+    (∀ k, app.hostKeyOK (effHost app ⟨u, .hostSig true k, c⟩) k = true →
+      app.hostUserOK u (effHost app ⟨u, .hostSig true k, c⟩) = true →
+      (run app [.req ⟨u, .hostSig true k, c⟩, .beginDone 0, .valDone 0]).complete = some u) ∧
     (app.kbdStart u = .challenge → app.kbdNext u c = .accept →
       (run app [.req ⟨u, .kbdint, 0⟩, .beginDone 0, .valDone 0, .info c, .valDone 1]).complete = some u) := by
   refine ⟨?_, ?_, ?_, ?_, ?_⟩
@@ -658,19 +728,20 @@ theorem client_admitted (app : App) (u c : Nat) (hn : app.needsAuth u = true) :
   · intro hp he
     cases hb : app.beginAsync <;>
       simp [run, step, onReq, onBeginDone, onValDone, afterBegin, createAuth, sendSuccess, hn, hp, he, hb]
-  · intro hk hu
+  · intro k hk hu
     cases hb : app.beginAsync <;>
       simp [run, step, onReq, onBeginDone, onValDone, afterBegin, createAuth, sendSuccess, hn, hk, hu, hb]
   · intro h0 h1
     cases hb : app.beginAsync <;>
       simp [run, step, onReq, onBeginDone, onValDone, onInfo, afterBegin, createAuth, sendSuccess, hn, h0, h1, hb]
 
-/-- a hostbased request whose signature does not verify, or whose host key is not trusted, is refused before the
-    application is even asked about the user -/
-theorem bad_host_signature_never_grants (app : App) (s : St) (u c : Nat) (sg : Bool)
-    (hu : s.username = some u) (hc : s.complete = none) (hbad : (app.hostKeyOK c && sg) = false) :
-    (createAuth app s ⟨u, .hostSig sg, c⟩).complete = none ∧ (createAuth app s ⟨u, .hostSig sg, c⟩).auth = none ∧
-    (createAuth app s ⟨u, .hostSig sg, c⟩).out = s.out ++ [.failure] := by
+/-- a hostbased request whose signature does not verify, or whose host key is not trusted for the client host of
+    THIS request (whatever earlier requests named), is refused before the application is even asked about the user -/
+theorem bad_host_signature_never_grants (app : App) (s : St) (u c k : Nat) (sg : Bool)
+    (hu : s.username = some u) (hc : s.complete = none)
+    (hbad : (app.hostKeyOK (effHost app ⟨u, .hostSig sg k, c⟩) k && sg) = false) :
+    (createAuth app s ⟨u, .hostSig sg k, c⟩).complete = none ∧ (createAuth app s ⟨u, .hostSig sg k, c⟩).auth = none ∧
+    (createAuth app s ⟨u, .hostSig sg k, c⟩).out = s.out ++ [.failure] := by
   simp [createAuth, hu, hc, hbad, sendFailure]
 
 /-- a method-specific message cannot complete authentication by itself: it either starts the validation of a
@@ -683,10 +754,677 @@ theorem info_never_grants (s : St) (c : Nat) : (onInfo s c).complete = s.complet
     · rfl
     · split
       · rfl
-      · split <;> rfl
+      · split
+        · split <;> rfl
+        · rfl
   · split
     · rfl
     · split <;> rfl
+
+/-! ### keyboard-interactive: a response needs a challenge (A-C06 #1) -/
+
+/-- the application issued a keyboard-interactive challenge for `u` on this connection -/
+def Challenged (log : List Call) (u : Nat) : Prop := ∃ r0, Call.kbd u r0 .challenge ∈ log
+
+theorem challenged_mono (log extra : List Call) (u : Nat) (h : Challenged log u) : Challenged (log ++ extra) u := by
+  obtain ⟨r0, h⟩ := h
+  exact ⟨r0, List.mem_append_left _ h⟩
+
+structure KbdInv (s : St) : Prop where
+  asked : ∀ a, s.auth = some a → a.req.method = .kbdint → a.awaiting = false → Challenged s.log a.user
+  resp : ∀ a c, s.auth = some a → a.resp = some c → Challenged s.log a.user
+  logged : ∀ u c ans, Call.kbd u (some c) ans ∈ s.log → Challenged s.log u
+
+/-- how a step may change the auth object and the log without breaking `KbdInv` -/
+theorem kbdInv_step (s s' : St) (h : KbdInv s) (extra : List Call) (hl : s'.log = s.log ++ extra)
+    (hx : ∀ u c ans, Call.kbd u (some c) ans ∈ extra → Challenged s.log u)
+    (ha : ∀ a', s'.auth = some a' →
+      (a'.awaiting = true ∧ a'.resp = none) ∨
+      (∃ a, s.auth = some a ∧ a'.user = a.user ∧ a'.req = a.req ∧
+        ((a'.awaiting = a.awaiting ∧ a'.resp = a.resp) ∨
+         (a'.resp = a.resp ∧ (a.req.method = .kbdint → Challenged s'.log a.user)) ∨
+         (a.req.method = .kbdint ∧ a.awaiting = false)))) : KbdInv s' := by
+  have mono : ∀ u, Challenged s.log u → Challenged s'.log u := by
+    intro u hu; rw [hl]; exact challenged_mono _ _ _ hu
+  refine ⟨?_, ?_, ?_⟩
+  · intro a' ha' hm hw
+    rcases ha a' ha' with ⟨h1, _⟩ | ⟨a, hsa, hu, hr, hc⟩
+    · rw [h1] at hw; cases hw
+    · rw [hu]
+      rcases hc with ⟨h1, _⟩ | ⟨_, h2⟩ | ⟨h3, h4⟩
+      · exact mono _ (h.asked a hsa (hr ▸ hm) (h1 ▸ hw))
+      · exact h2 (hr ▸ hm)
+      · exact mono _ (h.asked a hsa h3 h4)
+  · intro a' c ha' hc'
+    rcases ha a' ha' with ⟨_, h1⟩ | ⟨a, hsa, hu, hr, hc⟩
+    · rw [h1] at hc'; cases hc'
+    · rw [hu]
+      rcases hc with ⟨_, h1⟩ | ⟨h1, _⟩ | ⟨h3, h4⟩
+      · exact mono _ (h.resp a c hsa (h1 ▸ hc'))
+      · exact mono _ (h.resp a c hsa (h1 ▸ hc'))
+      · exact mono _ (h.asked a hsa h3 h4)
+  · intro u c ans hm
+    rw [hl] at hm
+    rcases List.mem_append.mp hm with hm | hm
+    · exact mono _ (h.logged u c ans hm)
+    · exact mono _ (hx u c ans hm)
+
+
+theorem kbdInv_init : KbdInv {} := by
+  refine ⟨?_, ?_, ?_⟩
+  · intro a h; cases h
+  · intro a c h; cases h
+  · intro u c ans h; cases h
+
+/-- same auth object (or none), log extended by entries that are not response validations -/
+theorem kbdInv_keep (s s' : St) (h : KbdInv s) (extra : List Call) (hl : s'.log = s.log ++ extra)
+    (hx : ∀ u c ans, Call.kbd u (some c) ans ∉ extra) (ha : s'.auth = none ∨ s'.auth = s.auth) : KbdInv s' := by
+  refine kbdInv_step s s' h extra hl (fun u c ans hm => absurd hm (hx u c ans)) ?_
+  intro a' ha'
+  rcases ha with ha | ha
+  · rw [ha] at ha'; cases ha'
+  · right; exact ⟨a', ha ▸ ha', rfl, rfl, Or.inl ⟨rfl, rfl⟩⟩
+
+/-- a freshly created auth object -/
+theorem kbdInv_fresh (s s' : St) (h : KbdInv s) (extra : List Call) (hl : s'.log = s.log ++ extra)
+    (hx : ∀ u c ans, Call.kbd u (some c) ans ∉ extra)
+    (ha : ∀ a', s'.auth = some a' → a'.awaiting = true ∧ a'.resp = none) : KbdInv s' :=
+  kbdInv_step s s' h extra hl (fun u c ans hm => absurd hm (hx u c ans)) (fun a' ha' => Or.inl (ha a' ha'))
+
+theorem sendSuccess_kbd (s : St) (h : KbdInv s) : KbdInv (sendSuccess s) := by
+  unfold sendSuccess
+  split
+  · exact kbdInv_keep s _ h [] (by simp) (by simp) (Or.inl rfl)
+  · exact h
+
+theorem sendFailure_kbd (s : St) (h : KbdInv s) : KbdInv (sendFailure s) :=
+  kbdInv_keep s _ h [] (by simp [sendFailure]) (by simp) (Or.inl rfl)
+
+theorem createAuth_kbd (app : App) (s : St) (r : Req) (h : KbdInv s) : KbdInv (createAuth app s r) := by
+  unfold createAuth
+  split
+  · exact h
+  · split
+    · exact h
+    · have hnew : ∀ a : AuthObj, a.awaiting = true → a.resp = none →
+          KbdInv { s with auth := some a, nVal := s.nVal + 1 } := by
+        intro a h1 h2
+        refine kbdInv_fresh s _ h [] (by simp) (by simp) ?_
+        intro a' ha'
+        simp only [Option.some.injEq] at ha'
+        subst ha'
+        exact ⟨h1, h2⟩
+      split
+      · exact sendFailure_kbd _ h
+      · exact sendFailure_kbd _ h
+      · split
+        · exact hnew _ rfl rfl
+        · apply sendFailure_kbd
+          exact kbdInv_keep s _ h [_] rfl (by simp) (Or.inr rfl)
+      · exact hnew _ rfl rfl
+
+theorem afterBegin_kbd (app : App) (s : St) (cu : Nat) (r : Req) (h : KbdInv s) :
+    KbdInv (afterBegin app s cu r) := by
+  unfold afterBegin
+  have h' : KbdInv { s with begun := some cu } := kbdInv_keep s _ h [] (by simp) (by simp) (Or.inr rfl)
+  simp only
+  split
+  · exact createAuth_kbd app _ r h'
+  · exact sendSuccess_kbd _ h'
+
+theorem step_kbd (app : App) (s : St) (ev : Ev) (h : KbdInv s) : KbdInv (step app s ev) := by
+  cases ev with
+  | req r =>
+    simp only [step, onReq]
+    split
+    · exact h
+    · split
+      · split
+        · exact kbdInv_keep s _ h [] (by simp) (by simp) (Or.inr rfl)
+        · exact h
+      · try dsimp only
+        split
+        · split
+          · exact kbdInv_keep s _ h [Call.begin r.user] (by simp) (by simp) (Or.inl rfl)
+          · exact afterBegin_kbd app _ _ _ (kbdInv_keep s _ h [Call.begin r.user] (by simp) (by simp) (Or.inl rfl))
+        · exact createAuth_kbd app _ r (kbdInv_keep s _ h [] (by simp) (by simp) (Or.inl rfl))
+  | beginDone k =>
+    simp only [step, onBeginDone]
+    split
+    · exact h
+    split
+    · exact h
+    · have h1 : KbdInv { s with tasks := s.tasks.filter (·.beginIdx ≠ k) } :=
+        kbdInv_keep s _ h [] (by simp) (by simp) (Or.inr rfl)
+      try dsimp only
+      split
+      · exact h1
+      · exact afterBegin_kbd app _ _ _ h1
+  | valDone k =>
+    simp only [step, onValDone]
+    split
+    · exact h
+    split
+    · exact h
+    · rename_i a ha
+      split
+      · exact h
+      · -- the auth object stays, no longer awaiting; `extra` holds no response validation
+        have hstay : ∀ (extra : List Call) (out : List Reply) ko, a.req.method ≠ .kbdint →
+            (∀ u c ans, Call.kbd u (some c) ans ∉ extra) →
+            KbdInv { s with log := s.log ++ extra, out := out, auth := some { a with awaiting := false },
+                            keyOpts := ko } := by
+          intro extra out ko hm hx
+          refine kbdInv_step s _ h extra rfl (fun u c ans hmem => absurd hmem (hx u c ans)) ?_
+          intro a' ha'
+          simp only [Option.some.injEq] at ha'
+          subst ha'
+          right
+          exact ⟨a, ha, rfl, rfl, Or.inr (Or.inl ⟨rfl, fun hk => absurd hk hm⟩)⟩
+        have hlog : ∀ (extra : List Call) ko, (∀ u c ans, Call.kbd u (some c) ans ∉ extra) →
+            KbdInv { s with log := s.log ++ extra, keyOpts := ko } := by
+          intro extra ko hx
+          exact kbdInv_keep s _ h extra rfl hx (Or.inr rfl)
+        split
+        · -- password
+          rename_i hm
+          split
+          · have := hstay [] (s.out ++ [.changeReq]) s.keyOpts (by simp [hm]) (by simp)
+            simpa using this
+          · try dsimp only
+            have hl := hlog [Call.checkPw a.user a.req.cred (app.pwOK a.user a.req.cred)] s.keyOpts (by simp)
+            split
+            · exact sendSuccess_kbd _ hl
+            · exact sendFailure_kbd _ hl
+        · -- password change
+          rename_i hm
+          split
+          · have := hstay [] (s.out ++ [.changeReq]) s.keyOpts (by simp [hm]) (by simp)
+            simpa using this
+          · try dsimp only
+            have hl := hlog [Call.checkChPw a.user a.req.cred (app.chpwOK a.user a.req.cred)] s.keyOpts (by simp)
+            split
+            · exact sendSuccess_kbd _ hl
+            · exact sendFailure_kbd _ hl
+        · -- hostbased
+          rename_i sigOK key _
+          try dsimp only
+          have hl := hlog [Call.checkHost a.user (effHost app a.req) (effHost app a.req) key
+            (app.hostKeyOK (effHost app a.req) key) sigOK (some (app.hostUserOK a.user (effHost app a.req)))]
+            s.keyOpts (by simp)
+          split
+          · exact sendSuccess_kbd _ hl
+          · exact sendFailure_kbd _ hl
+        · -- keyboard-interactive: the entry logged is for the object's own user; a response was only taken
+          -- after a challenge
+          rename_i hm
+          try dsimp only
+          have hx : ∀ ans u c ans', Call.kbd u (some c) ans' ∈ [Call.kbd a.user a.resp ans] → Challenged s.log u := by
+            intro ans u c ans' hmem
+            simp only [List.mem_singleton, Call.kbd.injEq] at hmem
+            obtain ⟨rfl, hr, _⟩ := hmem
+            exact h.resp a c ha hr.symm
+          have hl : ∀ ans, KbdInv { s with log := s.log ++ [Call.kbd a.user a.resp ans] } := by
+            intro ans
+            refine kbdInv_step s _ h _ rfl (hx ans) ?_
+            intro a' ha'
+            right
+            exact ⟨a', ha', rfl, rfl, Or.inl ⟨rfl, rfl⟩⟩
+          split
+          · rename_i hans
+            rw [hans]
+            exact sendSuccess_kbd _ (hl _)
+          · rename_i hans
+            rw [hans]
+            exact sendFailure_kbd _ (hl _)
+          · rename_i hans
+            rw [hans]
+            refine kbdInv_step s _ h _ rfl (hx _) ?_
+            intro a' ha'
+            simp only [Option.some.injEq] at ha'
+            subst ha'
+            right
+            refine ⟨a, ha, rfl, rfl, Or.inr (Or.inl ⟨rfl, fun _ => ?_⟩)⟩
+            exact ⟨a.resp, by simp⟩
+        · -- publickey probe
+          rename_i hm
+          try dsimp only
+          split
+          · exact hstay [Call.checkKey (keyCtx app s a) a.user a.req.cred (app.keyOK (keyCtx app s a) a.req.cred) none]
+              _ _ (by simp [hm]) (by simp)
+          · exact sendFailure_kbd _ (hlog [Call.checkKey (keyCtx app s a) a.user a.req.cred
+              (app.keyOK (keyCtx app s a) a.req.cred) none] s.keyOpts (by simp))
+        · -- publickey with signature
+          rename_i sigOK _
+          try dsimp only
+          split
+          · exact sendSuccess_kbd _ (hlog [Call.checkKey (keyCtx app s a) a.user a.req.cred
+              (app.keyOK (keyCtx app s a) a.req.cred) (some sigOK)] _ (by simp))
+          · exact sendFailure_kbd _ (hlog [Call.checkKey (keyCtx app s a) a.user a.req.cred
+              (app.keyOK (keyCtx app s a) a.req.cred) (some sigOK)] _ (by simp))
+        · exact h
+  | other =>
+    simp only [step]
+    split <;> exact kbdInv_keep s _ h [] (by simp) (by simp) (Or.inr rfl)
+  | info c =>
+    simp only [step, onInfo]
+    split
+    · exact h
+    · split
+      · exact kbdInv_keep s _ h [] (by simp) (by simp) (Or.inr rfl)
+      · rename_i a ha
+        split
+        · rename_i hm
+          split
+          · exact kbdInv_keep s _ h [] (by simp) (by simp) (Or.inr rfl)
+          · rename_i hw
+            refine kbdInv_step s _ h [] (by simp) (by simp) ?_
+            intro a' ha'
+            simp only [Option.some.injEq] at ha'
+            subst ha'
+            right
+            exact ⟨a, ha, rfl, rfl, Or.inr (Or.inr ⟨hm, by simpa using hw⟩)⟩
+        · exact kbdInv_keep s _ h [] (by simp) (by simp) (Or.inr rfl)
+  | authMsg =>
+    simp only [step, onAuthMsg]
+    split
+    · exact h
+    · split <;> exact kbdInv_keep s _ h [] (by simp) (by simp) (Or.inr rfl)
+
+theorem run_kbd (app : App) (evs : List Ev) : KbdInv (run app evs) := by
+  have : ∀ s : St, KbdInv s → KbdInv (evs.foldl (step app) s) := by
+    induction evs with
+    | nil => intro s hs; exact hs
+    | cons ev rest ih => intro s hs; exact ih _ (step_kbd app s ev hs)
+  exact this {} kbdInv_init
+
+/-- **A keyboard-interactive response is only ever handed to the application after the application issued a
+    challenge for that user on this connection** (A-C06 #1): for every event sequence, a logged
+    `validate_kbdint_response(u, …)` is preceded by a `get_kbdint_challenge` / `validate_kbdint_response` for `u`
+    that answered with a challenge.  An INFO_RESPONSE arriving while the challenge (or the validation of an earlier
+    response) is still pending ends the connection instead of cancelling that step. -/
+theorem kbd_response_needs_challenge (app : App) (evs : List Ev) (u c : Nat) (ans : KbdAns)
+    (h : Call.kbd u (some c) ans ∈ (run app evs).log) : Challenged (run app evs).log u :=
+  (run_kbd app evs).logged u c ans h
+
+/-- `auth_sound` for keyboard-interactive, with the dialogue made explicit: authenticated through accepted
+    responses implies the application had challenged that user -/
+theorem auth_sound_kbd (app : App) (evs : List Ev) (u : Nat) (h : (run app evs).complete = some u)
+    (hn : app.needsAuth u = true) (hpw : ∀ c, app.pwOK u c = false) (hkey : ∀ k, app.keyOK u k = false)
+    (hch : ∀ c, app.chpwOK u c = false) (hhost : ∀ h k, (app.hostKeyOK h k && app.hostUserOK u h) = false)
+    (hk0 : app.kbdStart u ≠ .accept) :
+    (∃ c, app.kbdNext u c = .accept ∧ Call.kbd u (some c) .accept ∈ (run app evs).log) ∧
+    Challenged (run app evs).log u := by
+  have hl := run_logHonest app evs
+  rcases auth_sound app evs u h with hg | ⟨c, hg⟩ | ⟨k, hg⟩ | ⟨c, hg⟩ | ⟨c, k, hg⟩ | ⟨r, hg⟩
+  · rw [hn] at hg; cases hg
+  · have := (hl _ hg).1 u c rfl; rw [hpw c] at this; cases this
+  · have := (hl _ hg).2.1 u u k _ rfl; rw [hkey k] at this; cases this
+  · have := (hl _ hg).2.2.1 u c rfl; rw [hch c] at this; cases this
+  · have := (hl _ hg).2.2.2.1 u c c k rfl
+    have hh := hhost c k
+    rw [this.1, this.2] at hh; cases hh
+  · cases r with
+    | none => exact absurd ((hl _ hg).2.2.2.2.1 u rfl) hk0
+    | some r => exact ⟨⟨r, (hl _ hg).2.2.2.2.2.1 u r rfl, hg⟩, kbd_response_needs_challenge app evs u r _ hg⟩
+
+/-! ### key options: the restrictions in force are those of the accepted credential (A-C05 D1) -/
+
+/-- whose options are in force (`get_key_option`, `check_key_permission`): invariants -/
+structure OptInv (s : St) : Prop where
+  live : ∀ a k, s.auth = some a → s.keyOpts = some k → a.awaiting = false ∧ a.req.method = .pkProbe
+  parked : ∀ t ∈ s.tasks, t.seq = s.seq → s.keyOpts = none ∧ s.complete = none
+  completeNoAuth : ∀ u, s.complete = some u → s.auth = none
+  done : ∀ u k, s.complete = some u → s.keyOpts = some k → Call.checkKey u u k true (some true) ∈ s.log
+
+theorem optInv_init : OptInv {} := by
+  refine ⟨?_, ?_, ?_, ?_⟩
+  · intro a k h; cases h
+  · intro t h; cases h
+  · intro u h; cases h
+  · intro u k h; cases h
+
+theorem sendSuccess_fields (s : St) :
+    (sendSuccess s).keyOpts = s.keyOpts ∧ (sendSuccess s).tasks = s.tasks ∧ (sendSuccess s).seq = s.seq ∧
+    (sendSuccess s).log = s.log ∧
+    ((sendSuccess s = s ∧ s.username = none) ∨ ((sendSuccess s).auth = none ∧ (sendSuccess s).complete = s.username)) := by
+  unfold sendSuccess
+  split
+  · rename_i u hu
+    refine ⟨rfl, rfl, rfl, rfl, Or.inr ⟨rfl, hu.symm⟩⟩
+  · rename_i hu
+    exact ⟨rfl, rfl, rfl, rfl, Or.inl ⟨rfl, hu⟩⟩
+
+theorem createAuth_fields (app : App) (s : St) (r : Req) :
+    (createAuth app s r).keyOpts = s.keyOpts ∧ (createAuth app s r).tasks = s.tasks ∧
+    (createAuth app s r).seq = s.seq ∧ (createAuth app s r).complete = s.complete ∧
+    (s.complete.isSome → createAuth app s r = s) := by
+  unfold createAuth
+  split
+  · exact ⟨rfl, rfl, rfl, rfl, fun _ => rfl⟩
+  · rename_i hc
+    have hcn : s.complete.isSome → False := fun h => hc h
+    split
+    · exact ⟨rfl, rfl, rfl, rfl, fun _ => rfl⟩
+    · split
+      · exact ⟨rfl, rfl, rfl, rfl, fun h => (hcn h).elim⟩
+      · exact ⟨rfl, rfl, rfl, rfl, fun h => (hcn h).elim⟩
+      · split
+        · exact ⟨rfl, rfl, rfl, rfl, fun h => (hcn h).elim⟩
+        · exact ⟨rfl, rfl, rfl, rfl, fun h => (hcn h).elim⟩
+      · exact ⟨rfl, rfl, rfl, rfl, fun h => (hcn h).elim⟩
+
+/-- a state whose key options are empty satisfies `OptInv` as soon as no parked task of the current request
+    coexists with completed authentication, and the auth object is gone or fresh -/
+theorem optInv_of_none (s : St) (hk : s.keyOpts = none)
+    (hp : ∀ t ∈ s.tasks, t.seq = s.seq → s.complete = none)
+    (hc : ∀ u, s.complete = some u → s.auth = none) : OptInv s := by
+  refine ⟨?_, ?_, hc, ?_⟩
+  · intro a k _ h; rw [hk] at h; cases h
+  · intro t ht hs; exact ⟨hk, hp t ht hs⟩
+  · intro u k _ h; rw [hk] at h; cases h
+
+theorem afterBegin_opt (app : App) (s : St) (cu : Nat) (r : Req) (hk : s.keyOpts = none)
+    (hp : ∀ t ∈ s.tasks, t.seq ≠ s.seq) (hc : ∀ u, s.complete = some u → s.auth = none) :
+    OptInv (afterBegin app s cu r) := by
+  unfold afterBegin
+  simp only
+  split
+  · obtain ⟨h1, h2, h3, h4, h5⟩ := createAuth_fields app { s with begun := some cu } r
+    simp only at h1 h2 h3 h4 h5
+    apply optInv_of_none
+    · rw [h1]; exact hk
+    · intro t ht hs
+      rw [h2] at ht; rw [h3] at hs
+      exact absurd hs (hp t ht)
+    · intro u hu
+      rw [h4] at hu
+      rw [h5 (by simp [hu])]; exact hc u hu
+  · obtain ⟨h1, h2, h3, _, h5⟩ := sendSuccess_fields { s with begun := some cu }
+    simp only at h1 h2 h3 h5
+    apply optInv_of_none
+    · rw [h1]; exact hk
+    · intro t ht hs
+      rw [h2] at ht; rw [h3] at hs
+      exact absurd hs (hp t ht)
+    · intro u hu
+      rcases h5 with ⟨h6, _⟩ | ⟨h6, _⟩
+      · rw [h6] at hu ⊢; exact hc u hu
+      · exact h6
+
+
+theorem createAuth_opt (app : App) (s : St) (r : Req) (hk : s.keyOpts = none)
+    (hp : ∀ t ∈ s.tasks, t.seq ≠ s.seq) (hc : ∀ u, s.complete = some u → s.auth = none) :
+    OptInv (createAuth app s r) := by
+  obtain ⟨h1, h2, h3, h4, h5⟩ := createAuth_fields app s r
+  apply optInv_of_none
+  · rw [h1]; exact hk
+  · intro t ht hs
+    rw [h2] at ht; rw [h3] at hs
+    exact absurd hs (hp t ht)
+  · intro u hu
+    rw [h4] at hu
+    rw [h5 (by simp [hu])]; exact hc u hu
+
+theorem step_opt (app : App) (s : St) (ev : Ev) (hi : Inv app s) (h : OptInv s) : OptInv (step app s ev) := by
+  cases ev with
+  | req r =>
+    simp only [step, onReq]
+    split
+    · exact h
+    · split
+      · split
+        · exact ⟨h.live, h.parked, h.completeNoAuth, h.done⟩
+        · exact h
+      · rename_i hc
+        have hcn : s.complete = none := by
+          cases hcc : s.complete with
+          | none => rfl
+          | some v => simp [hcc] at hc
+        have hold : ∀ t ∈ s.tasks, t.seq ≠ s.seq + 1 := by
+          intro t ht; have := hi.seqs t ht; omega
+        try dsimp only
+        split
+        · split
+          · apply optInv_of_none
+            · rfl
+            · intro t _ _; exact hcn
+            · intro u _; rfl
+          · apply afterBegin_opt
+            · rfl
+            · exact hold
+            · intro u _; rfl
+        · apply createAuth_opt
+          · rfl
+          · exact hold
+          · intro u _; rfl
+  | beginDone k =>
+    simp only [step, onBeginDone]
+    split
+    · exact h
+    split
+    · exact h
+    · rename_i t hf
+      have htm : t ∈ s.tasks := List.mem_of_find?_eq_some hf
+      have htk : t.beginIdx = k := by simpa using List.find?_some hf
+      try dsimp only
+      split
+      · exact ⟨h.live, fun t' ht' hs => h.parked t' (List.mem_filter.mp ht').1 hs, h.completeNoAuth, h.done⟩
+      · rename_i hseq
+        have hseq' : t.seq = s.seq := by simpa using hseq
+        obtain ⟨hk0, hc0⟩ := h.parked t htm hseq'
+        apply afterBegin_opt
+        · exact hk0
+        · intro t' ht' hs'
+          have hm := List.mem_filter.mp ht'
+          have hidx := hi.uniq t' hm.1 t htm (by simp only at hs'; rw [hs', hseq'])
+          have : t'.beginIdx ≠ k := by simpa using hm.2
+          exact this (hidx.trans htk)
+        · intro u hu; simp only at hu; rw [hc0] at hu; cases hu
+  | valDone k =>
+    simp only [step, onValDone]
+    split
+    · exact h
+    split
+    · exact h
+    · rename_i a ha
+      split
+      · exact h
+      · rename_i hcond
+        have haw : a.awaiting = true := by
+          cases hw : a.awaiting with
+          | true => rfl
+          | false => exact absurd (Or.inr hw) hcond
+        -- a live awaiting object: no key options are set, nothing is parked for the current request, and
+        -- authentication is not complete
+        have hk0 : s.keyOpts = none := by
+          cases hko : s.keyOpts with
+          | none => rfl
+          | some k0 => have := (h.live a k0 ha hko).1; rw [haw] at this; cases this
+        have hnp : ∀ t ∈ s.tasks, t.seq ≠ s.seq := by
+          intro t ht hs
+          have := hi.parkedNoAuth t ht hs
+          rw [ha] at this; cases this
+        have hcn : s.complete = none := by
+          cases hcc : s.complete with
+          | none => rfl
+          | some v => have := h.completeNoAuth v hcc; rw [ha] at this; cases this
+        have hu := hi.authUser a ha
+        have hctx := keyCtx_eq app s a (hi.authBegun a ha)
+        -- outcomes that leave the key options empty
+        have hfail : ∀ (extra : List Call), OptInv (sendFailure { s with log := s.log ++ extra, keyOpts := none }) := by
+          intro extra
+          apply optInv_of_none
+          · rfl
+          · intro t ht hs; exact absurd hs (hnp t ht)
+          · intro u _; rfl
+        have hsucc : ∀ (extra : List Call), OptInv (sendSuccess { s with log := s.log ++ extra, keyOpts := none }) := by
+          intro extra
+          obtain ⟨h1, h2, h3, _, h5⟩ := sendSuccess_fields { s with log := s.log ++ extra, keyOpts := none }
+          simp only at h1 h2 h3 h5
+          apply optInv_of_none
+          · rw [h1]
+          · intro t ht hs
+            rw [h2] at ht; rw [h3] at hs
+            exact absurd hs (hnp t ht)
+          · intro u hu'
+            rcases h5 with ⟨h6, _⟩ | ⟨h6, _⟩
+            · rw [h6] at hu'; simp only at hu'; rw [hcn] at hu'; cases hu'
+            · exact h6
+        have hstay : ∀ (extra : List Call) (out : List Reply),
+            OptInv { s with log := s.log ++ extra, out := out, auth := some { a with awaiting := false },
+                            keyOpts := none } := by
+          intro extra out
+          apply optInv_of_none
+          · rfl
+          · intro t ht hs; exact absurd hs (hnp t ht)
+          · intro u hu'; simp only at hu'; rw [hcn] at hu'; cases hu'
+        split
+        · -- password
+          split
+          · have := hstay [] (s.out ++ [.changeReq])
+            simpa [hk0] using this
+          · try dsimp only
+            split
+            · have := hsucc [Call.checkPw a.user a.req.cred (app.pwOK a.user a.req.cred)]
+              rw [← hk0] at this; exact this
+            · have := hfail [Call.checkPw a.user a.req.cred (app.pwOK a.user a.req.cred)]
+              rw [← hk0] at this; exact this
+        · -- password change
+          split
+          · have := hstay [] (s.out ++ [.changeReq])
+            simpa [hk0] using this
+          · try dsimp only
+            split
+            · have := hsucc [Call.checkChPw a.user a.req.cred (app.chpwOK a.user a.req.cred)]
+              rw [← hk0] at this; exact this
+            · have := hfail [Call.checkChPw a.user a.req.cred (app.chpwOK a.user a.req.cred)]
+              rw [← hk0] at this; exact this
+        · -- hostbased
+          rename_i sigOK key _
+          try dsimp only
+          split
+          · have := hsucc [Call.checkHost a.user (effHost app a.req) (effHost app a.req) key
+              (app.hostKeyOK (effHost app a.req) key) sigOK (some (app.hostUserOK a.user (effHost app a.req)))]
+            rw [← hk0] at this; exact this
+          · have := hfail [Call.checkHost a.user (effHost app a.req) (effHost app a.req) key
+              (app.hostKeyOK (effHost app a.req) key) sigOK (some (app.hostUserOK a.user (effHost app a.req)))]
+            rw [← hk0] at this; exact this
+        · -- keyboard-interactive
+          try dsimp only
+          split
+          · have := hsucc [Call.kbd a.user a.resp (match a.resp with | none => app.kbdStart a.user | some c => app.kbdNext a.user c)]
+            rw [← hk0] at this; exact this
+          · have := hfail [Call.kbd a.user a.resp (match a.resp with | none => app.kbdStart a.user | some c => app.kbdNext a.user c)]
+            rw [← hk0] at this; exact this
+          · have := hstay [Call.kbd a.user a.resp (match a.resp with | none => app.kbdStart a.user | some c => app.kbdNext a.user c)]
+              (s.out ++ [.infoReq])
+            rw [← hk0] at this; exact this
+        · -- publickey probe: the object stays, no longer awaiting, and its key's options are stored
+          rename_i hm
+          try dsimp only
+          split
+          · refine ⟨?_, ?_, ?_, ?_⟩
+            · intro a' k' ha' _
+              simp only [Option.some.injEq] at ha'
+              subst ha'
+              exact ⟨rfl, hm⟩
+            · intro t ht hs; exact absurd hs (hnp t ht)
+            · intro u hu'; simp only at hu'; rw [hcn] at hu'; cases hu'
+            · intro u k' hu'; simp only at hu'; rw [hcn] at hu'; cases hu'
+          · have := hfail [Call.checkKey (keyCtx app s a) a.user a.req.cred (app.keyOK (keyCtx app s a) a.req.cred) none]
+            rw [← hk0] at this; exact this
+        · -- publickey with signature
+          rename_i sigOK _
+          try dsimp only
+          split
+          · rename_i hok
+            have hok' : app.keyOK (keyCtx app s a) a.req.cred = true ∧ sigOK = true := by simpa using hok
+            -- success: the options in force are those of the key whose signature just verified
+            obtain ⟨h1, h2, h3, h4, h5⟩ := sendSuccess_fields
+              { s with log := s.log ++ [Call.checkKey (keyCtx app s a) a.user a.req.cred
+                  (app.keyOK (keyCtx app s a) a.req.cred) (some sigOK)], keyOpts := some a.req.cred }
+            simp only at h1 h2 h3 h4 h5
+            refine ⟨?_, ?_, ?_, ?_⟩
+            · intro a' k' ha' _
+              rcases h5 with ⟨_, h7⟩ | ⟨h6, _⟩
+              · rw [hu] at h7; cases h7
+              · rw [h6] at ha'; cases ha'
+            · intro t ht hs
+              rw [h2] at ht; rw [h3] at hs
+              exact absurd hs (hnp t ht)
+            · intro u' _
+              rcases h5 with ⟨_, h7⟩ | ⟨h6, _⟩
+              · rw [hu] at h7; cases h7
+              · exact h6
+            · intro u' k' hu' hk'
+              rcases h5 with ⟨_, h7⟩ | ⟨_, h7⟩
+              · rw [hu] at h7; cases h7
+              · rw [h7, hu] at hu'
+                simp only [Option.some.injEq] at hu'
+                subst hu'
+                rw [h1] at hk'
+                simp only [Option.some.injEq] at hk'
+                subst hk'
+                rw [h4, hctx, hok'.2]
+                rw [hctx] at hok'
+                simp [hok'.1]
+          · -- failure: no auth object is left and authentication is not complete
+            refine ⟨?_, ?_, ?_, ?_⟩
+            · intro a' k' ha' _; simp [sendFailure] at ha'
+            · intro t ht hs; exact absurd hs (hnp t ht)
+            · intro u' _; rfl
+            · intro u' k' hu' _; simp only [sendFailure] at hu'; rw [hcn] at hu'; cases hu'
+        · exact h
+  | other =>
+    simp only [step]
+    split <;> exact ⟨h.live, h.parked, h.completeNoAuth, h.done⟩
+  | info c =>
+    simp only [step, onInfo]
+    split
+    · exact h
+    · split
+      · exact ⟨h.live, h.parked, h.completeNoAuth, h.done⟩
+      · rename_i a ha
+        split
+        · rename_i hm
+          split
+          · exact ⟨h.live, h.parked, h.completeNoAuth, h.done⟩
+          · -- a keyboard-interactive object never coexists with stored key options
+            have hk0 : s.keyOpts = none := by
+              cases hko : s.keyOpts with
+              | none => rfl
+              | some k0 => have := (h.live a k0 ha hko).2; rw [hm] at this; cases this
+            refine ⟨?_, h.parked, ?_, h.done⟩
+            · intro a' k' _ hk'; simp only at hk'; rw [hk0] at hk'; cases hk'
+            · intro u hu'
+              have := h.completeNoAuth u hu'
+              rw [ha] at this; cases this
+        · exact ⟨h.live, h.parked, h.completeNoAuth, h.done⟩
+  | authMsg =>
+    simp only [step, onAuthMsg]
+    split
+    · exact h
+    · split <;> exact ⟨h.live, h.parked, h.completeNoAuth, h.done⟩
+
+theorem run_opt (app : App) (evs : List Ev) : OptInv (run app evs) := by
+  have : ∀ s : St, Inv app s → OptInv s → Inv app (evs.foldl (step app) s) ∧ OptInv (evs.foldl (step app) s) := by
+    induction evs with
+    | nil => intro s hi hs; exact ⟨hi, hs⟩
+    | cons ev rest ih => intro s hi hs; exact ih _ (step_inv app s ev hi) (step_opt app s ev hi hs)
+  exact (this {} (inv_init app) optInv_init).2
+
+/-- **The restrictions attached to the accepted credential are the ones enforced afterwards** (key options; A-C05
+    D1): for every event sequence, if the connection is authenticated as `u` and the options of key `k`'s
+    authorized_keys entry are in force, then `k` is authorised for `u` and `k`'s signature over this session's
+    identifier and its own request verified — the options are those of the credential that granted access.  In
+    particular a key that was only probed, or whose signature failed, leaves nothing behind on a session
+    authenticated by a password or by another key. -/
+theorem options_are_the_credentials (app : App) (evs : List Ev) (u k : Nat)
+    (hc : (run app evs).complete = some u) (hk : (run app evs).keyOpts = some k) :
+    Call.checkKey u u k true (some true) ∈ (run app evs).log ∧ app.keyOK u k = true := by
+  have h := (run_opt app evs).done u k hc hk
+  exact ⟨h, (run_logHonest app evs _ h).2.1 u u k _ rfl⟩
 
 /-! ### the defect the repair removed (F1), as a machine-checked witness about the pre-fix transition function -/
 
@@ -731,6 +1469,63 @@ theorem mid_code_begin_auth_skipped_witness :
     (runMid witnessApp2 evs).complete = some 2 ∧
     (run witnessApp2 evs).complete = none ∧
     (run witnessApp2 (evs ++ [.beginDone 2, .valDone 2])).complete = none := by
+  decide
+
+/-! ### the defects removed by the repairs of the audit findings A-C05 D2, D3, D1 and A-C06 #1: machine-checked
+witnesses about the pre-repair transition function `stepQ` with one quirk each -/
+
+/-- only host 0 is a known client host (its key is key 0); user 1 may log in from host 1 only -/
+def hostWitnessApp (trust : Bool) : App :=
+  { needsAuth := fun _ => true, beginAsync := false, pwOK := fun _ _ => false, keyOK := fun _ _ => false,
+    perUserKeys := false, hostKeyOK := fun h k => h == 0 && k == 0, hostUserOK := fun u h => u == 1 && h == 1,
+    trustClientHost := trust, resolvedHost := 0 }
+
+theorem hostWitnessApp_no_credential (trust : Bool) (h k : Nat) :
+    ((hostWitnessApp trust).hostKeyOK h k && (hostWitnessApp trust).hostUserOK 1 h) = false := by
+  cases h with
+  | zero => simp [hostWitnessApp]
+  | succ n => simp [hostWitnessApp]
+
+theorem prefix_trusted_keys_accumulate_witness :
+    let evs := [Ev.req ⟨1, .hostSig true 0, 0⟩, .valDone 0, .req ⟨1, .hostSig true 0, 1⟩, .valDone 1]
+    (runQ { trustedKeysAccumulate := true } (hostWitnessApp true) evs).complete = some 1 ∧
+    (run (hostWitnessApp true) evs).complete = none ∧
+    (run (hostWitnessApp true) evs).out = [.failure, .failure] := by
+  decide
+
+theorem prefix_claimed_host_witness :
+    let evs := [Ev.req ⟨1, .hostSig true 0, 1⟩, .valDone 0]
+    (runQ { claimedHostToApp := true } (hostWitnessApp false) evs).complete = some 1 ∧
+    (runQ { claimedHostToApp := true } (hostWitnessApp false) evs).log =
+      [.begin 1, .checkHost 1 0 1 0 true true (some true)] ∧
+    (run (hostWitnessApp false) evs).complete = none ∧
+    (run (hostWitnessApp false) evs).log = [.begin 1, .checkHost 1 0 0 0 true true (some false)] := by
+  decide
+
+def kbdWitnessApp : App :=
+  { needsAuth := fun _ => true, beginAsync := false, pwOK := fun _ _ => false, keyOK := fun _ _ => false,
+    perUserKeys := false, kbdStart := fun _ => .reject, kbdNext := fun _ c => if c == 7 then .accept else .reject }
+
+theorem prefix_early_info_response_witness :
+    let evs := [Ev.req ⟨1, .kbdint, 0⟩, .info 7, .valDone 1]
+    (runQ { earlyInfoResponse := true } kbdWitnessApp evs).complete = some 1 ∧
+    (runQ { earlyInfoResponse := true } kbdWitnessApp evs).log = [.begin 1, .kbd 1 (some 7) .accept] ∧
+    (run kbdWitnessApp evs).complete = none ∧ (run kbdWitnessApp evs).closed = true ∧
+    (run kbdWitnessApp evs).log = [.begin 1] ∧
+    (run kbdWitnessApp [Ev.req ⟨1, .kbdint, 0⟩, .valDone 0, .info 7]).closed = true := by
+  decide
+
+def optsWitnessApp : App :=
+  { needsAuth := fun _ => true, beginAsync := false, pwOK := fun u c => u == 1 && c == 1,
+    keyOK := fun u k => u == 1 && k == 0, perUserKeys := false }
+
+theorem prefix_stale_key_options_witness :
+    let evs := [Ev.req ⟨1, .pkProbe, 0⟩, .valDone 0, .req ⟨1, .password, 1⟩, .valDone 1]
+    (runQ { staleKeyOptions := true } optsWitnessApp evs).complete = some 1 ∧
+    (runQ { staleKeyOptions := true } optsWitnessApp evs).keyOpts = some 0 ∧
+    (runQ { staleKeyOptions := true } optsWitnessApp evs).log =
+      [.begin 1, .checkKey 1 1 0 true none, .checkPw 1 1 true] ∧
+    (run optsWitnessApp evs).complete = some 1 ∧ (run optsWitnessApp evs).keyOpts = none := by
   decide
 
 end AsyncsshModel.C05
